@@ -1,17 +1,8 @@
 INIT Init
 NEXT Next
 CONSTANTS
-  Signs <- Pos
-  Sigs <- Sig1
-  Exps = {}
-  Precs = {}
-  UncSigs <- SigEdge
-  UncOffs = {}
-  UncPrecs = {}
-  Units = {}
-  Convs = {}
-  UncSrcs = {"arg"}
-  RomanMax = 3999
+  SliceTable <- AllSlices
+  SliceNames = {"roman"}
 INVARIANT TypeOK
 INVARIANT RoundCarries
 INVARIANT ModelNumberDenotes
